@@ -187,6 +187,9 @@ func (a *API) Watch(inf *Informer) {
 	a.watchers[inf.Resource] = append(a.watchers[inf.Resource], inf)
 }
 
+// Version returns the store's revision counter (it moves exactly when a write changes something).
+func (a *API) Version() int64 { return a.rv }
+
 // ResetWatchers drops all registered informers (controller restart).
 func (a *API) ResetWatchers(keep func(*Informer) bool) {
 	for r, list := range a.watchers {
